@@ -334,11 +334,11 @@ LATE = {
     "C05": " Every yielded dataset must announce, and every written file be named by, the time span of the primary points it holds.",
     "C10": " align(): nested primaries (a secondary shared by primaries that are not neighbours); a read error inside a bundle.",
     "C11": " A user-defined placeholder regex with a foreign file in the fileset's directories that no operation may touch; falsy "
-           "contents; whole-fileset read-back through collect(); post_reader on compressed files.",
+           "contents; whole-fileset read-back through collect(); post_reader on compressed files. Time stamps finer than the file names (minute, second, millisecond templates): each content lands in, and is found in, the name-resolution bin containing its stamp.",
     "C12": " Names at the file system's NAME_MAX.",
-    "C13": " Group names of which one begins with the other; labelled channels in opposite orders; infinite values.",
+    "C13": " Group names of which one begins with the other; labelled channels in opposite orders; infinite values. concat_collocations on genuine collocate() results with together more than 256 stored points per side.",
     "C15": " Catalogues with a non-UTF-8 file name, with the time_coverage option (last file ending at datetime.max) and with a "
-           "handler (info_via='both') whose get_info fails on the first look at every file.",
+           "handler (info_via='both') whose get_info fails on the first look at every file. Corruptions of the VALUES of 'times' (numbers, strings cut short, dates without time, nested lists).",
     "C16": " A narrowed copy must not move the original's answers; failed reads on compressed files; a nominal time_coverage "
            "next to end fields.",
     "C17": " OemProps!BlockLaw (block-diagonal problems have block-diagonal S, G, A) is model-checked and replayed as histories of "
@@ -351,7 +351,7 @@ LATE = {
     "C18": " The one-shell check also in units 2^20 times larger (covariance entries around 1e-12).",
     "C19": " ScoresProps!PinballHalf: integer-typed estimates against observations that are not whole numbers.",
     "C20": " TileCache has a 'garbage' outcome (a transfer that completes without delivering an archive); the cache directory "
-           "carries glob metacharacters; the client changes returned grids in place between two requests; rectangles at 60 S.",
+           "carries glob metacharacters; the client changes returned grids in place between two requests; rectangles at 60 S. Edges written as decimals naming a cell border (7200 rectangles), judged at the exact rational value of the double; one known finding (ulp-level quotient rounding in get_native_grids).",
 }
 
 NOT_APPLICABLE = {
